@@ -3,6 +3,8 @@ import RbV.Ref.NW
 import RbV.Ref.PoaCheck
 import RbV.Ref.PoaAccept
 import RbV.Model.Poa
+import RbV.Model.PoaBanded
+import RbV.Model.PoaCustom
 /-! Driver for property C16 (partial-order alignment).
 
 `c16 <gap>:<xp>:<xs>:<yp>:<ys> <alphabet> <table> <reference> <step>/… => g:<labels>:<edges> c:<cons> | [b:<sc>] s:<sc> o:<ops> [g:… c:…] | …`
@@ -21,8 +23,9 @@ Clauses decided here, all with the proved functions of `RbV/Ref`:
 Nothing is asserted about scores or operations of `semiglobal`/`local`/`custom`/narrow bands.
 
 The mirror model `RbV/Model/Poa.lean` is evaluated alongside: `global` DP + traceback on the current graph,
-`add_alignment` on the observed operations (every mode), `consensus` on every dump, and `chainScore`
-(proved equal to the optimum) on the linear graph.  Differences are tags `drift-*`, never violations. -/
+`add_alignment` on the observed operations (every mode), `consensus` on every dump, `chainScore`
+(proved equal to the optimum) on the linear graph, and `bandedScore` (`RbV/Model/PoaBanded.lean`, any
+bandwidth, configured clip penalties) against every score `global_banded` reports.  Differences are tags `drift-*`, never violations. -/
 namespace RbV.Drv.C16
 open RbV.Codec RbV.NW RbV.Poa
 
@@ -150,7 +153,7 @@ def checkCons (st : St) (d : Dump) (c : String) (at_ : String) : St :=
 
 def fullBand (st : Step) (m : Nat) : Bool := st.bw ≥ m && st.bw ≥ st.query.length
 
-def stepCheck (sc : Sc) (clipsDefault uniq : Bool) (ref : List Nat) (st : St) (idx : Nat) (sp : Step) (g : Grp) : St :=
+def stepCheck (sc : Sc) (xp xs yp ys : Int) (clipsDefault uniq : Bool) (ref : List Nat) (st : St) (idx : Nat) (sp : Step) (g : Grp) : St :=
   if st.stopped || st.bad.isSome then st else
   let at_ := toString idx
   let st := st.tag ("mode-" ++ sp.mode)
@@ -203,8 +206,38 @@ def stepCheck (sc : Sc) (clipsDefault uniq : Bool) (ref : List Nat) (st : St) (i
       if sp.mode = "g" then
         let (ms, mops) := Model.globalAlign sc st.cur.labels st.cur.wes sp.query
         let st := if ms ≠ s then st.tag "drift-global-score" else st
-        if mops ≠ ops then st.tag "drift-global-ops" else st
+        let st := if mops ≠ ops then st.tag "drift-global-ops" else st
+        -- the extra banded run of a `g` step against the model of `global_banded`
+        match g.b.bind parseInt with
+        | some b =>
+          let st := if Model.bandedScore sc xp yp st.cur.labels st.cur.wes sp.query sp.bw ≠ b then st.tag "drift-banded-score"
+            else st.tag "banded-model"
+          -- `model_banded_full_band_equals_global`: bandwidth ≥ |query| suffices, on any DAG (cross-check on the real code)
+          if clipsDefault && sp.bw ≥ sp.query.length then
+            if b ≠ s then st.tag "band-covers-query-differs" else st.tag "band-covers-query-equal"
+          else st
+        | none => st
+      else if sp.mode = "b" then
+        let st := if Model.bandedScore sc xp yp st.cur.labels st.cur.wes sp.query sp.bw ≠ s then st.tag "drift-banded-score"
+          else st.tag "banded-model"
+        let st := if (Model.bandedTable sc xp yp st.cur.labels st.cur.wes sp.query sp.bw).ops st.cur.labels.length ≠ ops
+          then st.tag "drift-banded-ops" else st
+        if clipsDefault && sp.bw ≥ sp.query.length then
+          if (Model.globalAlign sc st.cur.labels st.cur.wes sp.query).1 ≠ s then st.tag "band-covers-query-differs"
+          else st.tag "band-covers-query-equal"
+        else st
       else st
+    -- the faithful model of `Poa::custom` (clip cells included), every mode that runs it
+    let st :=
+      if sp.mode = "b" then st else
+      let clips : Int × Int × Int × Int :=
+        if sp.mode = "g" then (minScore, minScore, minScore, minScore)
+        else if sp.mode = "s" then (minScore, minScore, 0, 0)
+        else if sp.mode = "l" then (0, 0, 0, 0)
+        else (xp, xs, yp, ys)
+      let (cs, cops) := Model.customAlign sc clips.1 clips.2.1 clips.2.2.1 clips.2.2.2 st.cur.labels st.cur.wes sp.query
+      let st := if cs ≠ s then st.tag "drift-custom-score" else st.tag "custom-model"
+      if cops ≠ ops then st.tag "drift-custom-ops" else st
     let st := if hasClip ops then st.tag "clip-ops" else st
     let st := if sp.mode = "b" && !fullBand sp m then st.tag "narrow-band" else st
     -- graph clauses
@@ -273,7 +306,7 @@ def verdict (toks : List String) (out : String) : String :=
           let st := if uniq then st.tag "uniq-scheme" else st
           let st := if !clipsDefault then st.tag "clip-penalties" else st
           if gs.length > steps.length then "bad-op more-groups-than-steps" else
-          let st := ((steps.zip gs).zipIdx).foldl (fun st ((sp, g), i) => stepCheck sc clipsDefault uniq ref st i sp g) st
+          let st := ((steps.zip gs).zipIdx).foldl (fun st ((sp, g), i) => stepCheck sc xp xs yp ys clipsDefault uniq ref st i sp g) st
           match st.bad with
           | some b => "bad-op " ++ b
           | none =>
